@@ -585,9 +585,9 @@ func init() {
 	})
 	register(&Prop{
 		ID: "C03", Level: "exploration", Batch: 25, PerCaseTimeout: 70 * time.Second,
-		Rule:  "case i = PRNG(seed,i) plans from the 'tol' profile (ToleratedFailures in {-1,0,1,2,n}, Concurrency in {unset,1,2,3}, 40% failing sequences at every position, no plan-level continuous check); non-trivial = at least one sequence failed; distinct by final-status hash",
+		Rule:  "case i = PRNG(seed,i) plans from the 'tol' profile (ToleratedFailures in {-1,0,1,2,n}, Concurrency in {unset,1,2,3}, 40% failing sequences at every position, no plan-level continuous check); every 20th case explores EVERY crash point (write prefix) of a tolerated-failure plan and applies the status rules to the plan the recovering Workstream ends with; non-trivial = at least one sequence failed; distinct by final-status hash",
 		Cases: nCases(400, 8000),
-		Run: engineRun("C03", tolProfile, func(c *eng.Case, run *eng.Run, pr *eng.PlanRun, t *oracle.Trace, res *CaseResult) {
+		Run: everyNth(20, c03Crash, engineRun("C03", tolProfile, func(c *eng.Case, run *eng.Run, pr *eng.PlanRun, t *oracle.Trace, res *CaseResult) {
 			res.Viols = append(res.Viols, oracle.C03(pr.Spec, t, pr.P0)...)
 			failed := 0
 			for _, o := range pr.P0.Objs {
@@ -606,7 +606,7 @@ func init() {
 					res.Counters["conc1_blocks_failed"]++
 				}
 			}
-		}, false),
+		}, false)),
 		RaceAttr:      func(ev.RaceBlock) bool { return false },
 		MinNontrivial: 30,
 		Assumptions:   []string{"rule 2 (exact stop) is stated on counts and declared-order prefixes, not on instants, because with Concurrency > 1 a launch in the window after a plugin returned is legitimate"},
@@ -905,6 +905,16 @@ func c08Dispatch(normal func(c *Ctx, idx int) CaseResult) func(c *Ctx, idx int) 
 	return func(c *Ctx, idx int) CaseResult {
 		if idx%10 == 9 {
 			return c08Fault(c, idx)
+		}
+		return normal(c, idx)
+	}
+}
+
+// everyNth runs special for every n-th case (idx % n == n-1) and normal otherwise.
+func everyNth(n int, special, normal func(c *Ctx, idx int) CaseResult) func(c *Ctx, idx int) CaseResult {
+	return func(c *Ctx, idx int) CaseResult {
+		if idx%n == n-1 {
+			return special(c, idx)
 		}
 		return normal(c, idx)
 	}
